@@ -232,8 +232,16 @@ def _setup_target(case, ctx, rng, obs_rule="third"):
         return None
     obs_np = R.restrict(ref0.choices, obs)
     gen = jax.jit(seed(gf.generate))
+    # every third target receives its last parameter by keyword: the trace then records (positional, {name: value})
+    # and the kernels must score / differentiate the model under those keyword arguments
+    kwargs = {}
+    if not prog.get("bare") and len(prog["params"]) >= 1 and case["gseed"][-1] % 3 == 1:
+        kwargs = {prog["params"][-1]: args[-1]}
+        args = args[:-1]
+        base["keyword_argument"] = prog["params"][-1]
+        ctx.count("targets_with_toplevel_kwargs")
     return dict(g=g, prog=prog, gf=gf, lp=lp, paths=paths, conds=conds, obs=obs, free=free, vals=vals, args=args,
-                obs_np=obs_np, gen=gen, base=base)
+                kwargs=kwargs, obs_np=obs_np, gen=gen, base=base)
 
 
 def _dist_of(lp, p):
@@ -259,7 +267,7 @@ def _run_generated(case, ctx):
     prog, gf, lp, vals, args = T["prog"], T["gf"], T["lp"], T["vals"], T["args"]
     h = spec.struct_hash(prog)
     base = {**T["base"], "args": vals, "observed": sorted(gfi.pstr(p) for p in T["obs"])}
-    r = ctx.call(T["gen"], jax.random.key(int(rng.integers(2**31))), R.to_jax(T["obs_np"]), *args)
+    r = ctx.call(T["gen"], jax.random.key(int(rng.integers(2**31))), R.to_jax(T["obs_np"]), *args, **T["kwargs"])
     if hasattr(r, "brief"):
         ctx.violation(gfi.raise_key("generate", r), {**base, **r.brief()})
         return
@@ -428,7 +436,7 @@ def _run_generated(case, ctx):
 # ---------------------------------------------------------------------------
 # exact detailed balance on small discrete targets
 # ---------------------------------------------------------------------------
-def _detailed_balance(ctx, prog, gf, vals, args, obs_np, sel_paths, base):
+def _detailed_balance(ctx, prog, gf, vals, args, obs_np, sel_paths, base, kwargs=None):
     import jax
     from genjax import seed
     from genjax.inference import mh
@@ -467,7 +475,7 @@ def _detailed_balance(ctx, prog, gf, vals, args, obs_np, sel_paths, base):
     d0 = {**base, "kernel": "mh", "selection": S.show(expr), "states": n}
     scripts_total = 0
     for i, sres in enumerate(states):
-        r = ctx.call(gen, jax.random.key(0), R.to_jax(sres.choices), *args)
+        r = ctx.call(gen, jax.random.key(0), R.to_jax(sres.choices), *args, **(kwargs or {}))
         if hasattr(r, "brief"):
             ctx.violation(gfi.raise_key("generate", r), {**d0, **r.brief()})
             return
@@ -558,7 +566,7 @@ def _run_db_generated(case, ctx):
     for _ in range(2):
         k = int(rng.integers(1, min(2, len(free)) + 1))
         ps = [free[int(i)] for i in rng.choice(len(free), size=k, replace=False)]
-        r = ctx.call(_detailed_balance, ctx, T["prog"], T["gf"], T["vals"], T["args"], T["obs_np"], ps, base)
+        r = ctx.call(_detailed_balance, ctx, T["prog"], T["gf"], T["vals"], T["args"], T["obs_np"], ps, base, T["kwargs"])
         if hasattr(r, "brief"):
             ctx.violation(gfi.raise_key("mh", r), {**base, **r.brief()})
         elif r:
